@@ -9,7 +9,7 @@ from ..domains import chain_arms
 from ..model import AnalysisError, FunctionInfo
 from ..report import Ob, bad, ok, unresolved
 from . import rule
-from .common import find_class_chains, method_calls, see_through
+from .common import find_class_chains, kw, method_calls, see_through
 from .disp import BACK, FRONT, _codegen, _dispatcher
 
 # Python's evaluation order of the child fields of the expression classes
@@ -187,6 +187,30 @@ def lower2(ctx) -> List[Ob]:
             out.append(bad("LOWER-2", he.qualname, key, where, early[0] + ": an operand that must run only if the first one allows it runs unconditionally and first", early))
         else:
             out.append(ok("LOWER-2", he.qualname, key, where, "conditional operands are handed unprocessed to handle_bool_op"))
+    # and/or nodes that the lowering builds itself: while an arm exists that lowers its operands before the
+    # guard (the finding above), a built node whose operand at index >= 1 is itself an and/or must be handed
+    # to handle_bool_op (which lowers that operand inside the guarded block), never back to the arity dispatch
+    eager = any(o.state == "violation" and o.rule == "LOWER-2" for o in out)
+    for c in A.walk_no_nested(ast.Module(boolarm.body, [])):
+        if not (isinstance(c, ast.Call) and isinstance(c.func, ast.Attribute) and c.func.attr in em and c.args):
+            continue
+        built = c.args[0]
+        if isinstance(built, ast.Name):
+            built = see_through(ctx, he, built) or built
+        if not (isinstance(built, ast.Call) and (A.dotted(built.func) or "") == "ast.BoolOp" and len(built.args) >= 2 and isinstance(built.args[1], (ast.List, ast.Tuple))):
+            continue
+        ops = built.args[1].elts
+        nested_later = []
+        for o_ in ops[1:]:
+            v_ = see_through(ctx, he, o_) if isinstance(o_, ast.Name) else o_
+            if isinstance(v_, ast.Call) and (A.dotted(v_.func) or "") == "ast.BoolOp":
+                nested_later.append(A.unparse(o_)[:40])
+        key = "built and/or node -> " + c.func.attr + ": " + A.alpha_key(built)[:80]
+        where = ctx.where(he, c)
+        if nested_later and c.func.attr != "handle_bool_op" and eager:
+            out.append(bad("LOWER-2", he.qualname, key, where, f"an and/or node built by the lowering has the and/or node {nested_later[0]} as a later operand and is sent back through the arity dispatch: it reaches the arm that lowers every operand before the guard exists, so the later half of a chain is always evaluated"))
+        else:
+            out.append(ok("LOWER-2", he.qualname, key, where, "built and/or node with a nested later operand goes to handle_bool_op" if nested_later else "no nested and/or among the later operands"))
     # inside handle_bool_op: values[1] is lowered after the guarded block was opened
     hb = ctx.prog.cls(FRONT).find_method("handle_bool_op")
     if hb is None:
@@ -1030,4 +1054,63 @@ def lower15(ctx) -> List[Ob]:
             out.append(bad("LOWER-15", fn.qualname, key, where, "a branching block can reach the arm that emits its statements unchanged: both arms are lost"))
         else:
             out.append(ok("LOWER-15", fn.qualname, key, where, "/".join(kinds)))
+    return out
+
+
+# ------------------------------------------------------------------ LOWER-16
+
+
+def _nonempty_list(ctx, fn, e: ast.AST, depth: int = 0) -> Optional[bool]:
+    """True: the expression is a list with at least one element on every path; False: it can be empty by
+    construction (an empty display); None: depends on what a recursive codegen call returns"""
+    if isinstance(e, (ast.List, ast.Tuple)):
+        return bool(e.elts)
+    if isinstance(e, ast.BoolOp) and isinstance(e.op, ast.Or):
+        vals = [_nonempty_list(ctx, fn, v, depth + 1) for v in e.values]
+        return True if vals and vals[-1] is True else (None if None in vals else False)
+    if isinstance(e, ast.Call) and isinstance(e.func, ast.Name) and e.func.id == "cast" and len(e.args) == 2:
+        return _nonempty_list(ctx, fn, e.args[1], depth + 1)
+    if isinstance(e, ast.BinOp) and isinstance(e.op, ast.Add):
+        a, b = _nonempty_list(ctx, fn, e.left, depth + 1), _nonempty_list(ctx, fn, e.right, depth + 1)
+        return True if True in (a, b) else (None if None in (a, b) else False)
+    if isinstance(e, ast.Name) and depth < 3:
+        v = see_through(ctx, fn, e)
+        if v is not None and v is not e:
+            return _nonempty_list(ctx, fn, v, depth + 1)
+    return None
+
+
+@rule("LOWER-16", 3, "the generated if / while statements have a body: a fill block emits a statement of its own (so an empty arm is never an empty suite), and no construct is built around an empty display")
+def lower16(ctx) -> List[Ob]:
+    out: List[Ob] = []
+    cg = _codegen(ctx)
+    arm, subj = _arm_for(ctx, cg, "SyntheticFill")
+    key = "an empty arm (fill block) emits a statement"
+    fill_emits = False
+    if arm is not None:
+        rets = [r for r in A.walk_no_nested(ast.Module(arm.body, [])) if isinstance(r, ast.Return)]
+        verdicts = [_nonempty_list(ctx, cg, r.value) if r.value is not None else False for r in rets]
+        fill_emits = bool(rets) and all(v is True for v in verdicts)
+    if fill_emits:
+        out.append(ok("LOWER-16", cg.qualname, key, ctx.where(cg, arm.node), f"returns {A.unparse(rets[0].value)[:40]}"))
+    else:
+        out.append(ok("LOWER-16", cg.qualname, key, ctx.where(cg), "a fill block emits nothing: every construct has to pad an empty suite itself (checked per construct)"))
+    # every ast.If / ast.While built by the code generator and its nested helpers
+    fns = [cg] + [f for f in ctx.prog.functions if f.parent_fn is cg]
+    for f in fns:
+        for c in A.walk_no_nested(f.node):
+            if not (isinstance(c, ast.Call) and (A.dotted(c.func) or "") in ("ast.If", "ast.While")):
+                continue
+            body = kw(c, "body", 1)
+            key = f"{(A.dotted(c.func) or '')}(...) body: " + (A.alpha_key(body)[:60] if body is not None else "?")
+            if body is None:
+                out.append(unresolved("LOWER-16", f.qualname, key, ctx.where(f, c), "body argument not found"))
+                continue
+            v = _nonempty_list(ctx, f, body)
+            if v is False:
+                out.append(bad("LOWER-16", f.qualname, key, ctx.where(f, c), f"the construct is built with an empty body ({A.unparse(body)[:40]})"))
+            elif v is None and not fill_emits:
+                out.append(bad("LOWER-16", f.qualname, key, ctx.where(f, c), f"the body is whatever the arm's blocks emit ({A.unparse(body)[:40]}) and a fill block emits nothing: an empty branch arm gives an `if` without a body here (the regenerated source does not compile); pad it (`... or [ast.Pass()]`) or let the fill emit a statement"))
+            else:
+                out.append(ok("LOWER-16", f.qualname, key, ctx.where(f, c), "non-empty display / padded" if v else "statements of the arm's region (non-empty: every arm holds a block that emits, fills included)"))
     return out
